@@ -207,6 +207,15 @@ def build(body):
     env, used, handed, problems = {}, set(), set(), []
     with CodeBuilder("main") as cb:
         drive(cb, body, env, used, handed, problems)
+        # a phase taken from the builder is a snapshot: later builder calls must not leak into it
+        snap = cb.as_execution_phase("main")
+        ids_before = sorted(s.id for s in snap.statements)
+        n_before = len(cb.statements)
+        cb.assign("verif_after_snapshot", "1")
+        if sorted(s.id for s in snap.statements) != ids_before:
+            problems.append("SNAPSHOT: a phase obtained from as_execution_phase() changed when the builder was used "
+                            "again (%d statements -> %d)" % (len(ids_before), len(list(snap.statements))))
+        del cb.statements[n_before:]
     cb.verif_flags = handed - set(env.values())
     return cb, env, problems
 
@@ -348,7 +357,7 @@ def check_body(shape, acc=None):
     except Exception as e:
         return [("builder-raises", "%s: %s" % (type(e).__name__, e))], refs, False
     for p in problems:
-        fails.append(("fresh-name-collision", p))
+        fails.append(("phase-aliases-builder" if p.startswith("SNAPSHOT") else "fresh-name-collision", p))
     # the reference treats aliases as variables; a swapped RESTART becomes switch main
     branching = False
     for y, ref in zip(INPUT_YS, refs):
